@@ -63,3 +63,119 @@ Fixpoint unresolved (pending : list N) (es : list event) : list N :=
   | EFut c _ _ _ _ :: es' => unresolved (filter (fun x => negb (x =? c)) pending) es'
   | _ :: es' => unresolved pending es'
   end.
+
+(* ------------------------------------------------------------------ C10 *)
+
+(* C10 exactly-once: accepted deliveries per open inbound QoS 2 handshake, read off the observed
+   events alone.  A handshake is opened by SavePacket(Incoming, PUBLISH id), closed by
+   DeletePacket(Incoming, id) (or a session Reset); a delivery counts when the callback returns
+   nil right after LookupPacket(Incoming, id) found the stored message (default mode). *)
+Record hscan := HScan { hs_tab : list (N * N); hs_cur : option N }.
+
+Definition hs_step (x : hscan) (e : event) : hscan :=
+  match e with
+  | ENew _ | ERx _ | ERxErr => HScan (hs_tab x) None
+  | ESave Incoming p Ok =>
+    match get_id p with Some id => HScan (hs_open (hs_tab x) id) None | None => x end
+  | ELookup Incoming id (Some (Some (Publish _ _ _))) => HScan (hs_tab x) (Some id)
+  | ELookup _ _ _ => HScan (hs_tab x) None
+  | ECb _ Ok =>
+    match hs_cur x with Some id => HScan (hs_incr (hs_tab x) id) None | None => x end
+  | ECb _ Fail => HScan (hs_tab x) None
+  | ETx (Pubcomp _) _ _ => HScan (hs_tab x) None
+  | EDelete Incoming id Ok => HScan (amap_del (hs_tab x) id) (hs_cur x)
+  | EReset _ Ok => HScan [] (hs_cur x)
+  | _ => x
+  end.
+
+Definition scan_hs (es : list event) : hscan := fold_left hs_step es (HScan [] None).
+
+Definition hs_twice (x : hscan) : option N :=
+  match filter (fun y => 1 <? snd y) (hs_tab x) with (id, _) :: _ => Some id | [] => None end.
+
+(* C10 acknowledgements: after an inbound PUBLISH the processor's observable moves are
+   (callback,) PUBACK for QoS 1; (callback in the announce-on-publish mode,) SavePacket(Incoming)
+   then PUBREC for QoS 2; after a PUBREL whose id is stored: (callback in default mode,) PUBCOMP,
+   DeletePacket(Incoming).  A callback error ends the sequence (the client dies). *)
+Inductive yexp :=
+| YNone
+| YPub (p : packet)        (* PUBLISH received: callback or, without callback, the first acknowledgement step *)
+| YAck (id : N)            (* Send(PUBACK id) *)
+| YSave (p : packet)       (* SavePacket(Incoming, p) *)
+| YRec (id : N)            (* Send(PUBREC id) *)
+| YRel (id : N)            (* LookupPacket(Incoming, id) *)
+| YRelCb (m : message) (pid id : N)   (* callback or PUBCOMP *)
+| YComp (pid id : N)       (* Send(PUBCOMP pid) *)
+| YDel (id : N).           (* DeletePacket(Incoming, id) *)
+
+Definition after_cb_exp (p : packet) : yexp :=
+  match p with
+  | Publish _ m id => if m_qos m =? 1 then YAck id else if m_qos m =? 2 then YSave p else YNone
+  | _ => YNone
+  end.
+
+Definition ack_step (y : yexp) (e : event) : option yexp :=
+  match e with
+  | ENew _ => Some YNone
+  | _ =>
+    if proc_obs e then
+      match y, e with
+      | YNone, ERx (Publish d m id) => Some (if m_qos m =? 0 then YNone else YPub (Publish d m id))
+      | YNone, ERx (Pubrel id) => Some (YRel id)
+      | YNone, ECb _ Fail => Some YNone
+      | YNone, _ => Some YNone
+      | YPub p, ECb m r =>
+        match p with
+        | Publish _ m' _ => if message_eqb m m' then Some (match r with Ok => after_cb_exp p | Fail => YNone end) else None
+        | _ => None
+        end
+      | YPub p, _ =>
+        (* no callback configured: the step after it *)
+        match after_cb_exp p, e with
+        | YAck id, ETx (Puback id') true _ => if id =? id' then Some YNone else None
+        | YSave q, ESave Incoming q' r =>
+          if packet_eqb q q' then
+            match r, get_id q with Ok, Some id => Some (YRec id) | Fail, _ => Some YNone | _, _ => None end
+          else None
+        | _, _ => None
+        end
+      | YAck id, ETx (Puback id') true _ => if id =? id' then Some YNone else None
+      | YSave q, ESave Incoming q' r =>
+        if packet_eqb q q' then
+          match r, get_id q with Ok, Some id => Some (YRec id) | Fail, _ => Some YNone | _, _ => None end
+        else None
+      | YRec id, ETx (Pubrec id') true _ => if id =? id' then Some YNone else None
+      | YRel id, ELookup Incoming id' r =>
+        if id =? id' then
+          match r with
+          | Some (Some (Publish _ m pid)) => Some (YRelCb m pid id)
+          | _ => Some YNone
+          end
+        else None
+      | YRelCb m pid id, ECb m' r =>
+        if message_eqb m' m then Some (match r with Ok => YComp pid id | Fail => YNone end) else None
+      | YRelCb m pid id, ETx (Pubcomp pid') true r =>
+        if pid =? pid' then Some (match r with Ok => YDel id | Fail => YNone end) else None
+      | YComp pid id, ETx (Pubcomp pid') true r =>
+        if pid =? pid' then Some (match r with Ok => YDel id | Fail => YNone end) else None
+      | YDel id, EDelete Incoming id' _ => if id =? id' then Some YNone else None
+      | _, _ => None
+      end
+    else Some y
+  end.
+
+Fixpoint scan_ack (y : yexp) (es : list event) : option yexp :=
+  match es with
+  | [] => Some y
+  | e :: es' => match ack_step y e with Some y' => scan_ack y' es' | None => None end
+  end.
+
+(* C10 no-ack-on-error: after a callback error no PUBACK/PUBREC/PUBCOMP is written on this Client *)
+Fixpoint scan_noack (failed : bool) (es : list event) : bool :=
+  match es with
+  | [] => true
+  | ENew _ :: es' => scan_noack false es'
+  | ECb _ Fail :: es' => scan_noack true es'
+  | ETx (Puback _ | Pubrec _ | Pubcomp _) _ _ :: es' => negb failed && scan_noack failed es'
+  | _ :: es' => scan_noack failed es'
+  end.
